@@ -69,7 +69,10 @@ void runSession(const std::string& sub, const sess::Session& s, vh::Stats& st, i
         if (inc) { st.inconclusive++; continue; }
         if (rep == 0) classify(s, r, st);
         st.count("transcript lines", (long)r.log.size());
-        if (!e.empty()) vh::fail(caseJson(s, &r), e);
+        if (!e.empty()) {
+            if (r.hang) vh::ctx().shrinkBudget = std::min<long>(vh::ctx().shrinkBudget, 4); // every re-execution of a hang costs 45 s
+            vh::fail(caseJson(s, &r), e);
+        }
     }
 }
 
